@@ -589,6 +589,8 @@ func c11JSONTwin(c *c11Case, protoRep *c11Reply) string {
 var c11Methods = []string{"POST", "POST", "POST", "POST", "GET", "HEAD", "PUT", "DELETE", "OPTIONS", "PATCH", "post", "Post", "TRACE", "QUERY", "X-custom"}
 
 var c11CTs = []string{"application/x-protobuf", "application/json", "application/x-httpgrpc-proto+v1",
+	// names under which gRPC's own codec and compressor registries know something (none of them is a media type of this protocol)
+	"application/proto", "Application/Proto; charset=utf-8", "application/gzip", "application/identity", "application/protobuf", "application/x-proto",
 	"Application/X-Protobuf", "APPLICATION/JSON", "application/X-HTTPGRPC-PROTO+V1",
 	"application/x-protobuf; charset=utf-8", "application/json;charset=UTF-8", "application/x-httpgrpc-proto+v1; v=1", " application/json", "application/json ",
 	"application/x-protobuf;", "application/x-protobuf; bad", "application/json; charset", "application/json; =", "text/plain", "application/grpc", "application/x-httpgrpc-proto+v2", "application/x-protobuf2",
